@@ -84,8 +84,35 @@ def written_targets(fmt, obj, cls):
     return out
 
 
+def refused_add_left_behind(fmt, obj, k):
+    """a misaligned child is offered to a variant and refused; if the refused variant can nevertheless be reached from the
+    forest afterwards, the object holds a variant breaking the UID rule and must not be writable"""
+    import productmd.composeinfo
+    import productmd.treeinfo
+    variants = [v for p, v in reachable(obj) if type(v).__name__ == "Variant"]
+    if not variants:
+        return None
+    target = variants[k % len(variants)]
+    child = (productmd.composeinfo.Variant if fmt == "composeinfo" else productmd.treeinfo.Variant)(obj)
+    child.id, child.uid, child.name, child.type = "Rfsd", "Elsewhere-Rfsd", "refused", "variant"
+    if fmt == "composeinfo":
+        child.arches = set(target.arches)
+    try:
+        target.add(child)
+    except ValueError:
+        pass
+    else:
+        raise Violation("misaligned-add-not-refused", "%s: %s.add() accepted a child with UID %r" % (fmt, target.uid, child.uid))
+    held = [v for v in [v for p, v in reachable(obj) if type(v).__name__ == "Variant"] if v is child]
+    if not held:
+        return None
+    return "%s.add() refused %r but the variant stayed in the forest" % (target.uid, child.uid), 2
+
+
 def apply_special(fmt, obj, name, k, desc=None):
     """returns (label, depth) or None when the object offers no position for this corruption"""
+    if name == "refused-add-left-behind":
+        return refused_add_left_behind(fmt, obj, k)
     if fmt == "composeinfo":
         variants = [(p, v) for p, v in reachable(obj) if type(v).__name__ == "Variant"]
         kids = [(p, v) for p, v in variants if v.parent is not None]
@@ -347,6 +374,9 @@ def table_case(case):
     res = corrupt_and_dump(case["format"], rich(case["format"]), case["corruption"], via_file=case["corruption"]["target"] == 3,
                            validated_first=case.get("validated_first", False))
     if res is None:
+        names = rules.SPECIALS.get(case["format"], [])
+        if case["corruption"]["kind"] == "special" and names[case["corruption"]["row"] % len(names)] == "refused-add-left-behind":
+            return {"nontrivial": True, "labels": [case["format"], "refused-add-left-nothing-behind"]}      # the expected outcome
         raise Violation("harness-rich-object-lacks-position", "harness bug: rich %s object has no position for %r" % (case["format"], case["corruption"]))
     label, depth = res
     return {"nontrivial": depth >= 1, "labels": [case["format"], "row" if case["corruption"]["kind"] == "row" else "special"]}
